@@ -35,6 +35,8 @@ pub enum TokOp {
     SendFrom { spender: u8, owner: u8, k: u8 },
     BurnFrom { spender: u8, owner: u8, k: u8 },
     Advance { secs: u8 },
+    /// move the clock to the expiry second of the k-th stored time-based allowance (+ offset -1 / 0 / +1)
+    AdvanceToExpiry { k: u8, off: i8 },
     /// stSei only: UpdateMinter attempt
     UpdateMinter { by: u8, to: Option<u8> },
     /// stSei only: marketing update attempt
@@ -85,6 +87,7 @@ fn op_strategy() -> BoxedStrategy<TokOp> {
         2 => (p(), u(), k()).prop_map(|(spender, owner, k)| TokOp::SendFrom { spender, owner, k }),
         3 => (p(), u(), k()).prop_map(|(spender, owner, k)| TokOp::BurnFrom { spender, owner, k }),
         3 => (0u8..70).prop_map(|secs| TokOp::Advance { secs }),
+        2 => (any::<u8>(), -1i8..=1).prop_map(|(k, off)| TokOp::AdvanceToExpiry { k, off }),
         1 => (p(), proptest::option::of(p())).prop_map(|(by, to)| TokOp::UpdateMinter { by, to }),
         1 => p().prop_map(|by| TokOp::UpdateMarketing { by }),
     ]
@@ -334,6 +337,30 @@ impl Prop for C18 {
                     }
                     continue;
                 }
+                TokOp::AdvanceToExpiry { k, off } => {
+                    let times: Vec<u64> = m
+                        .allow
+                        .values()
+                        .filter_map(|(a, e)| match e {
+                            Expiration::AtTime(t) if *a > 0 && t.seconds() > w.time => Some(t.seconds()),
+                            _ => None,
+                        })
+                        .collect();
+                    if !times.is_empty() {
+                        let target = times[*k as usize % times.len()] as i128 + *off as i128;
+                        if target > w.time as i128 {
+                            w.advance((target - w.time as i128) as u64);
+                            let now = block(&w);
+                            if m.allow.values().any(|(a, e)| *a > 0 && !e.is_expired(&blk) && e.is_expired(&now)) {
+                                crossed_expiry = true;
+                            }
+                            if *off == 0 {
+                                out.label("clock_on_allowance_expiry_second");
+                            }
+                        }
+                    }
+                    continue;
+                }
                 TokOp::Transfer { from, to, k } => {
                     let (f, t) = (who(*from), who(*to));
                     let a = amount_for(m.bal.get(&f).copied().unwrap_or(0), *k);
@@ -528,6 +555,7 @@ fn opname(op: &TokOp) -> &'static str {
         TokOp::SendFrom { .. } => "send_from",
         TokOp::BurnFrom { .. } => "burn_from",
         TokOp::Advance { .. } => "advance",
+        TokOp::AdvanceToExpiry { .. } => "advance_to_expiry",
         TokOp::UpdateMinter { .. } => "update_minter",
         TokOp::UpdateMarketing { .. } => "update_marketing",
     }
